@@ -105,6 +105,9 @@ func runC06(r *Run, verifDir string) {
 	c06D8(r)
 	c06D9(r)
 	c06D10(r)
+	r.Rule("C06.D12", "the opaque container records the tag of what it holds: Value.TagDecodeTTLV stores its tag on every successful return", 1)
+	valueTagRecorded(r, "C06.D12")
+	(&lexCtx{r: r, p: r.P, ord: map[string]int{}}).l1Hex("C06.D11")
 	opIface, _ := root.Types.Scope().Lookup("OperationPayload").Type().Underlying().(*types.Interface)
 	objIface, _ := root.Types.Scope().Lookup("Object").Type().Underlying().(*types.Interface)
 	if opIface == nil || objIface == nil {
